@@ -82,6 +82,7 @@ type State struct {
 	keccaks []keccakApp
 	sigs    []sigReg
 	pcH1, pcH2 uint64
+	badSigs    []*Term
 }
 
 type keccakApp struct {
@@ -125,6 +126,7 @@ func (st *State) clone() *State {
 	n.events = append([]Event(nil), st.events...)
 	n.keccaks = append([]keccakApp(nil), st.keccaks...)
 	n.sigs = append([]sigReg(nil), st.sigs...)
+	n.badSigs = append([]*Term(nil), st.badSigs...)
 	n.status = st.status
 	n.steps = st.steps
 	n.pcH1, n.pcH2 = st.pcH1, st.pcH2
